@@ -8,7 +8,8 @@
 //!   unpack T w fill outlen ws        -> `ok <out values>` | `panic`
 //!   fin    O hexbuf offsets          -> `copy st=<fnv> out=<fnv> offs=<list>` (input below FSST_LEAST_INPUT_SIZE) | `fsst`
 //!   finmin O hexbuf offsets          -> the same, with the minimum output buffers the kernels' own checks accept (1x / 3x)
-//!   dec    O hexsymtab hexcodes offs -> `ok <hex> <offsets>` | `err:<kind>`
+//!   dec    O hexsymtab hexcodes offs -> `ok <hex> <offsets> term=<terminator> termfree=<bool>` | `err:<kind>`
+//!                                       (termfree: no symbol of >= 2 bytes contains the terminator byte)
 //!
 //! `fsst::compress` samples its training set with an OS-seeded RNG, so a compressed form is not a function of the
 //! seed: the generator runs the real compressor and puts its output into the `dec` line (data for the Lean decoder
@@ -197,6 +198,22 @@ fn decompress_any(o: usize, st: &[u8], codes: &[u8], offs: &[u64], f: usize) -> 
     } else {
         decompress_o::<i64>(st, codes, offs, f)
     }
+}
+
+/// the invariant of a finalized symbol table that `compress_bulk` relies on when it writes the terminator behind
+/// every chunk as a sentinel: no symbol of two or more bytes contains the terminator byte.  Parsed from the
+/// serialised table (`FsstEncoder::export`): byte 0 = number of symbols, byte 1 = terminator, then 8-byte symbols,
+/// then length bytes.  `None` = no violation; `Some(i)` = symbol i violates it.
+fn table_invariant_violation(st: &[u8]) -> Option<usize> {
+    if st.len() != SYMTAB {
+        return None;
+    }
+    let n = st[0] as usize;
+    let t = st[1];
+    (0..n).find(|&i| {
+        let len = (st[8 + 8 * n + i] as usize).min(8);
+        len >= 2 && st[8 + 8 * i..8 + 8 * i + len].contains(&t)
+    })
 }
 
 fn strings_of<'a>(buf: &'a [u8], offs: &[u64]) -> Option<Vec<&'a [u8]>> {
@@ -424,6 +441,73 @@ fn gen_array(rng: &mut Rng, kind: usize) -> (Vec<u8>, Vec<u64>) {
                 }
             });
         }
+        9 => {
+            // all 256 byte values present, structured rare-byte context: 32 eight-byte words that use every byte
+            // value once; some words are frequent, the others equally rare, so the terminator FSST picks (the rarest
+            // byte of the sample, lowest value first) OCCURS in the data, always behind the same bytes; every string ends
+            // with some of the bytes that precede it (the sentinel written behind a string then completes the word)
+            let mut r = rng.fork();
+            let mut perm: Vec<u8> = (0..=255u8).collect();
+            for i in (1..256).rev() {
+                let j = r.usize(i + 1);
+                perm.swap(i, j);
+            }
+            let mut words: Vec<Vec<u8>> = perm.chunks(8).map(|c| c.to_vec()).collect();
+            let nfreq = 8 + r.usize(8); // words 0..nfreq are frequent
+            // the terminator: the smallest byte value of the rare words; make sure bytes precede it in its word
+            let (mut tw, mut tp, mut tb) = (0usize, 0usize, 255u8);
+            for (wi, w) in words.iter().enumerate().skip(nfreq) {
+                for (pi, b) in w.iter().enumerate() {
+                    if *b <= tb {
+                        (tw, tp, tb) = (wi, pi, *b);
+                    }
+                }
+            }
+            let want_pos = if r.chance(1, 2) { 7 } else { 2 + r.usize(6) };
+            words[tw].swap(tp, want_pos);
+            let tp = want_pos;
+            let scale = 1 + r.usize(5); // string length 544 * scale roughly: several 511-byte chunks
+            let (freq_reps, rare_reps) = ((3 + r.usize(3)) * scale, scale);
+            push_until(&mut strs, big, &mut || {
+                let mut seq: Vec<usize> = vec![];
+                for j in 0..32 {
+                    let reps = if j < nfreq { freq_reps } else { rare_reps };
+                    seq.extend(std::iter::repeat(j).take(reps));
+                }
+                for i in (1..seq.len()).rev() {
+                    let j = r.usize(i + 1);
+                    seq.swap(i, j);
+                }
+                let mut st: Vec<u8> = vec![];
+                for j in seq {
+                    st.extend_from_slice(&words[j]);
+                }
+                let tail = 1 + r.usize(tp);
+                st.extend_from_slice(&words[tw][tp - tail..tp]);
+                st
+            });
+        }
+        10 => {
+            // compressible strings longer than one 511-byte chunk whose last chunk is shorter than the one before it
+            // (the bytes behind the last chunk in the encoder's chunk buffer are left-overs of the previous chunk)
+            let mut r = rng.fork();
+            let phrase: Vec<u8> = (0..(3 + r.usize(14))).flat_map(|_| r.pick(WORDS).as_bytes().to_vec()).collect();
+            push_until(&mut strs, big, &mut || {
+                let chunks = 1 + r.usize(3);
+                let l = 511 * chunks + 1 + r.usize(500);
+                let mut st: Vec<u8> = vec![];
+                let mut k = r.usize(phrase.len());
+                while st.len() < l {
+                    if r.chance(1, 40) {
+                        st.extend_from_slice(r.pick(WORDS).as_bytes());
+                    }
+                    st.push(phrase[k % phrase.len()]);
+                    k += 1;
+                }
+                st.truncate(l);
+                st
+            });
+        }
         8 => {
             // no string has a byte: zero strings, or only empty strings, over a large unreferenced values buffer
             let n = if rng.chance(1, 2) { 0 } else { 1 + rng.usize(5) };
@@ -464,7 +548,10 @@ fn gen_array(rng: &mut Rng, kind: usize) -> (Vec<u8>, Vec<u64>) {
 
 fn gen_fsst(rng: &mut Rng, idx: usize) -> Vec<String> {
     let o = if idx % 2 == 0 { 32 } else { 64 };
-    let kind = (idx / 2) % 9;
+    let kind = match (idx / 2) % 12 {
+        11 => 9, // the rare-byte-context family twice per cycle
+        k => k,
+    };
     let (buf, offs) = gen_array(rng, kind);
     // every third array goes through the kernels with the minimum buffer sizes their own checks accept
     let op = if idx % 3 == 2 { "finmin" } else { "fin" };
@@ -687,6 +774,23 @@ impl Prop for C28 {
                             if copy { "copy-err".to_string() } else { "fsst".to_string() }
                         }
                         Comp::Ok { st, out, offs: co } => {
+                            // invariant oracle on the table the real encoder built
+                            if !copy {
+                                if buf.contains(&st[1]) {
+                                    res.tags.push("terminator_in_data".into());
+                                }
+                                if let Some(i) = table_invariant_violation(&st) {
+                                    res.failures.push(OracleFailure {
+                                        what: format!(
+                                            "symbol {i} of the table built by fsst::compress has >= 2 bytes and contains the terminator byte {} \
+                                             (the sentinel behind a string can be matched as part of a symbol)",
+                                            st[1]
+                                        ),
+                                        key: Some("fsst_symbol_contains_terminator".into()),
+                                        line: ln,
+                                    });
+                                }
+                            }
                             // property oracle: decompress gives back every string
                             let co_used = &co[..offs.len().min(co.len())];
                             match decompress_any(o, &st, &out, co_used, df) {
@@ -762,7 +866,18 @@ impl Prop for C28 {
                                     });
                                 }
                             }
-                            format!("ok {} {}", hex(&out), show_nat_list(doffs.iter().copied()))
+                            let inv = table_invariant_violation(&st).is_none();
+                            if last_in.is_some() && st[3] & 1 == 1 && !inv {
+                                res.failures.push(OracleFailure {
+                                    what: format!(
+                                        "the symbol table in the op line (built by fsst::compress) has a multi-byte symbol containing the terminator byte {}",
+                                        st[1]
+                                    ),
+                                    key: Some("fsst_symbol_contains_terminator".into()),
+                                    line: ln,
+                                });
+                            }
+                            format!("ok {} {} term={} termfree={}", hex(&out), show_nat_list(doffs.iter().copied()), st[1], inv)
                         }
                     })
                 })(),
@@ -775,9 +890,10 @@ impl Prop for C28 {
     fn rule(&self) -> String {
         "of every 14 cases 10 are bit-packing blocks enumerating all 124 (lane type, width) pairs x 8 block kinds (zero, all-max, \
          alternating, random masked, random unmasked, ramp, single bit, sparse): pack on the real kernel, unpack of its output, \
-         unpack of arbitrary words; 1 malformed bit-packing call (width > T, short slices); 1 byte-string array (8 kinds: small/copy \
+         unpack of arbitrary words; 1 malformed bit-packing call (width > T, short slices); 1 byte-string array (11 kinds: small/copy \
          mode, vocabulary text, all 256 byte values, long repeats, incompressible, at the 32 KiB threshold, mostly-empty with 0xFF \
-         bytes, one long string, no referenced byte; i32 / i64 offsets; some sliced; a third with the minimum output buffers) through the real fsst::compress, whose output is decoded by both \
+         bytes, one long string, no referenced byte, all 256 byte values with the rarest byte in a fixed context and strings ending \
+         inside that context (twice per cycle), compressible strings of 2-4 chunks of 511 bytes with a shorter last chunk; i32 / i64 offsets; some sliced; a third with the minimum output buffers) through the real fsst::compress, whose output is decoded by both \
          sides; 1 synthetic symbol table + random clean code streams; 1 malformed decoder input (bad magic, wrong table size, \
          string ending inside an escape, no offsets). Non-trivial = a kernel ran to completion on the case."
             .into()
